@@ -12,13 +12,13 @@ def run(tier, seed):
     if r["violated"]:
         raise common.Inconclusive("SpecValidator.tla violates %s (spec bug)" % r["violated"])
     check.add_tlc(r)
-    args = ["-seed", seed, "-bases", 4 if quick else 0, "-edits", 160 if quick else 600, "-double", 0.15]
+    args = ["-seed", seed, "-bases", 4 if quick else 0, "-edits", 160 if quick else 300, "-double", 0.15]
     fails = specfam.run_spec(check, vh, "edits", args, ["C07"], [], shards=8 if quick else 14)
     specfam.report(check, fails, {})
     check.coverage["rule"] = ("base documents (hand-written valid documents, plus every fixture under fixtures/validation and fixtures/petstore that loads in the thorough tier) x structural edits at every "
                               "JSON pointer: delete, set null, retype to each other JSON kind, rename a key to \"\", to a dotted name, to a sibling's name, replace by a $ref to nowhere, add siblings next to "
                               "$ref, transplant a sub-tree, duplicate an array element; 15%% double edits. Each document that loads is validated in both continue-on-errors modes under a 60 s watchdog; TLC "
                               "(Trace_SpecRun, clause C07) requires every run to return and its phase trace, observed through the verifPhase hook, to be a run of SpecValidator.tla. Quick: a seeded sample of "
-                              "%s edits per base (the rare edit kinds always kept). distinct = distinct documents that load." % ("160" if quick else "600"))
+                              "%s edits per base (the rare edit kinds always kept). distinct = distinct documents that load." % ("160" if quick else "300"))
     check.assumptions = ["termination is a 60 s watchdog", "the specification's contribution is the totality post-condition and the phase machine; detection rests on the edit universe"]
     return check.finish()
